@@ -63,7 +63,13 @@ func (cb *CircuitBreaker) IsOpen(endpointURL string) bool {
 			// check if it's been a long time, shouldn't have left you
 			// Without a dope beat to step to
 			lastAttempt := atomic.LoadInt64(&state.lastAttempt)
-			return time.Unix(0, lastAttempt).Add(time.Second).After(time.Now())
+			if time.Unix(0, lastAttempt).Add(time.Second).After(time.Now()) {
+				return true
+			}
+
+			// The earlier probe has gone stale. Exactly one caller may take over the
+			// probe slot, otherwise every caller would be let through from here on.
+			return !atomic.CompareAndSwapInt64(&state.lastAttempt, lastAttempt, now)
 		}
 		return true
 	}
